@@ -159,3 +159,38 @@ def enumerate_schedules(run_once, cap):
             for j in range(br[i] - 1, 0, -1):
                 pending.append(full[:i] + [j])
     return True
+
+
+def run_many_scheduled(items, choices=(), *, adversarial=False):
+    """asyncio.gather of several runs under ONE harness scheduler.
+    items: list of dicts {ctx, graph, values, runner (optional), kw (optional)}.  Returns (list of Outcome, Sched)."""
+    sched = Sched(choices, adversarial=adversarial)
+    holds = []
+    for it in items:
+        it["ctx"].sched = sched
+        h = Hold(sched)
+        holds.append(h)
+    sched.holds = holds
+
+    async def one(it, hold):
+        runner = it.get("runner") or AsyncRunner()
+        try:
+            res = await runner.run(it["graph"], dict(it["values"]), event_processors=[hold], **(it.get("kw") or {}))
+            return _outcome(res)
+        except (Exception, asyncio.CancelledError) as e:  # noqa: BLE001
+            return Outcome("raised", None, e)
+
+    async def go():
+        main = asyncio.ensure_future(asyncio.gather(*[one(it, h) for it, h in zip(items, holds)]))
+        return await sched.drive(main)
+
+    try:
+        with warnings.catch_warnings():
+            warnings.simplefilter("ignore")
+            res = asyncio.run(go())
+    except Deadlock as d:
+        return [Outcome("deadlock", None, d) for _ in items], sched
+    finally:
+        for it in items:
+            it["ctx"].sched = None
+    return list(res), sched
